@@ -67,6 +67,11 @@ m("c20-manual-debug-rot-unwrap", S + "navigation.rs", "#[derive(Debug, Copy, Clo
 m("c12-shiptype-eq-by-discriminant", S + "types.rs", "#[derive(Debug, PartialEq, Eq, Copy, Clone)]\npub enum ShipType {", "impl PartialEq for ShipType {\n    fn eq(&self, other: &Self) -> bool {\n        core::mem::discriminant(self) == core::mem::discriminant(other)\n    }\n}\n\n#[derive(Debug, Eq, Copy, Clone)]\npub enum ShipType {", ["C12"])
 n("n-c15-dgnss-header-by-bytes", S + "dgnss_broadcast_binary_message.rs", "        let (data, message_type) = take_bits(6u8)(data)?;\n        let (data, station_id) = take_bits(10u8)(data)?;\n", "        let (data, b0) = take_bits::<_, u8, _, _>(8u8)(data)?;\n        let (data, b1) = take_bits::<_, u8, _, _>(8u8)(data)?;\n        let message_type = b0 >> 2;\n        let station_id = (u16::from(b0) & 0x03) << 8 | u16::from(b1);\n", ["C15", "C04", "C01", "C18"])
 m("c15-dgnss-header-by-bytes-precedence", S + "dgnss_broadcast_binary_message.rs", "        let (data, message_type) = take_bits(6u8)(data)?;\n        let (data, station_id) = take_bits(10u8)(data)?;\n", "        let (data, b0) = take_bits::<_, u8, _, _>(8u8)(data)?;\n        let (data, b1) = take_bits::<_, u8, _, _>(8u8)(data)?;\n        let message_type = b0 >> 2;\n        let station_id = u16::from(b0) & 0x03 << 8 | u16::from(b1);\n", ["C15", "C04"])
+m("c14-dte-default-ready", S + "types.rs", "    Ready,\n    #[default]\n    NotReady,\n", "    #[default]\n    Ready,\n    NotReady,\n", ["C14"])
+m("c06-new-parser-counter-1", SS, "    pub fn new() -> Self {\n        Self::default()\n    }", "    pub fn new() -> Self {\n        Self { fragment_number: 1, ..Self::default() }\n    }", ["C06"])
+m("c05-append-twice-with-std-and-alloc", SS, "        #[cfg(any(feature = \"std\", feature = \"alloc\"))]\n        self.data.extend_from_slice(&ais_sentence.data);\n", "        #[cfg(feature = \"std\")]\n        self.data.extend_from_slice(&ais_sentence.data);\n        #[cfg(feature = \"alloc\")]\n        self.data.extend_from_slice(&ais_sentence.data);\n", ["C05", "C06", "C18"])
+m("c12-shiptype-manual-clone-slip", S + "types.rs", "#[derive(Debug, PartialEq, Eq, Copy, Clone)]\npub enum ShipType {", "impl Clone for ShipType {\n    fn clone(&self) -> Self {\n        match *self {\n            ShipType::TankerReserved(v) => ShipType::CargoReserved(v),\n            other => other,\n        }\n    }\n}\n\n#[derive(Debug, PartialEq, Eq, Copy)]\npub enum ShipType {", ["C12"])
+m("c16-sotdma-eq-ignores-timeout", S + "radio_status.rs", "#[derive(Debug, PartialEq, Eq)]\npub struct SotdmaMessage {", "impl PartialEq for SotdmaMessage {\n    fn eq(&self, other: &Self) -> bool {\n        self.sync_state == other.sync_state && self.sub_message == other.sub_message\n    }\n}\n\n#[derive(Debug, Eq)]\npub struct SotdmaMessage {", ["C16", "C04"])
 m("c12-reverse-54-55", S + "types.rs", "AntiPollutionEquipment => 54,", "AntiPollutionEquipment => 55,", ["C12"])
 m("c12-epfd-15", S + "types.rs", "            15 => None,\n            _ => Some(Self::Unknown(data)),", "            _ => Some(Self::Unknown(data)),", ["C12"])
 m("c12-navaid-swap", S + "aid_to_navigation_report.rs", "9 => Some(Self::BeaconCardinalN),\n            10 => Some(Self::BeaconCardinalE),", "9 => Some(Self::BeaconCardinalE),\n            10 => Some(Self::BeaconCardinalN),", ["C12"])
